@@ -105,7 +105,10 @@ def c_ic(kind, nm, ns, register, rset, madr=None):
             ssr = L(d.decoder, "slave_sel_r")
     else:
         arbs = [m for _, m in d._submodules if isinstance(m, wishbone.Arbiter)]
-        assert len(arbs) == ns
+        if len(arbs) != ns:       # a crossbar is one decoder per master and ONE ARBITER PER SLAVE: with another shape some slave has no path (reported, not a harness fault)
+            return dict(results=[res("ens.route.crossbar-has-one-arbiter-per-slave", "ensures", VIOLATED, 0, "executed (elaboration)", replayed=True,
+                                     witness=dict(construction=f"wishbone.Crossbar({nm} masters, {ns} slaves)", arbiters=len(arbs), slaves=ns))],
+                        functions=["litex.soc.interconnect.wishbone.Crossbar.__init__"], samples=[])
         for j, s in enumerate(slaves):
             grant = V(arbs[j].rr.grant) if nm > 1 else K(0, 1)
             g = lambda nme: sel_by(grant, [mv(m, nme) for m in masters])
